@@ -110,7 +110,16 @@ class SymBytes:
         return self.concretized()
 
     def hex(self, *a):
-        return "<symhex>"
+        if a:
+            raise SxUnsupported("bytes.hex with a separator on symbolic bytes")
+        items = []
+        for b in self.items:
+            if type(b) is int:
+                items.extend(ord(c) for c in f"{b:02x}")
+            else:
+                for n in (b >> 4, b & 15):
+                    items.append(ite(n < 10, n + 48, n + 87) if type(n) is not int else ord("0123456789abcdef"[n]))
+        return SymStr.mk(items)
 
     def __repr__(self):
         return f"<symbytes len={len(self.items)}>"
